@@ -317,27 +317,28 @@ theorem valid_sanitize {s : Bytes} (h : validUTF8 s = true) : sanitizeX s = s :=
 
 /-! ### ext types (as they are) -/
 
-theorem ext8_rt (f : Nat) (ty : UInt8) (b rest : Bytes) (h : b.length < 256) :
-    decT (f + 1) (byte 0xc7 :: (toBE 1 b.length ++ (ty :: (b ++ rest)))) = .ok (.str b, rest) := by
-  rw [decT_byte f 0xc7 _ (.ext 1) (by decide) (by decide)]
-  have h1 := readU_toBE 1 b.length (ty :: (b ++ rest)) (by omega)
+theorem ext_rt (f t n : Nat) (ty : UInt8) (b rest : Bytes) (ht : t < 256) (hk : kindOf t = some (.ext n))
+    (h : b.length < 256 ^ n) :
+    decT (f + 1) (byte t :: (toBE n b.length ++ (ty :: (b ++ rest)))) = .ok (.str b, rest) := by
+  rw [decT_byte f t _ (.ext n) ht hk]
+  have h1 := readU_toBE n b.length (ty :: (b ++ rest)) h
   have h2 : readN 1 (ty :: (b ++ rest)) = .ok ([ty], b ++ rest) := readN_append' 1 [ty] _ rfl
   simp [runKind, extFn, h1, h2, readN_append]
 
-theorem ext8_pf (f : Nat) (ty : UInt8) (b : Bytes) (h : b.length < 256) (j : Nat)
-    (hj : j < (byte 0xc7 :: (toBE 1 b.length ++ ty :: b)).length) :
-    decT (f + 1) ((byte 0xc7 :: (toBE 1 b.length ++ ty :: b)).take j) = .err .eof := by
+theorem ext_pf (f t n : Nat) (ty : UInt8) (b : Bytes) (ht : t < 256) (hk : kindOf t = some (.ext n))
+    (h : b.length < 256 ^ n) (j : Nat) (hj : j < (byte t :: (toBE n b.length ++ ty :: b)).length) :
+    decT (f + 1) ((byte t :: (toBE n b.length ++ ty :: b)).take j) = .err .eof := by
   cases j with
   | zero => rfl
   | succ j =>
-    rw [take_succ_byte, decT_byte f 0xc7 _ (.ext 1) (by decide) (by decide)]
+    rw [take_succ_byte, decT_byte f t _ (.ext n) ht hk]
     simp only [runKind, extFn]
     simp [toBE_length] at hj
-    by_cases h0 : j < 1
+    by_cases h0 : j < n
     · rw [readU_short]
       simp [List.length_take, toBE_length]; omega
-    · rw [take_append_of_le _ _ _ (by rw [toBE_length]; omega), readU_toBE 1 b.length _ (by omega), toBE_length]
-      cases hj1 : j - 1 with
+    · rw [take_append_of_le _ _ _ (by rw [toBE_length]; omega), readU_toBE n b.length _ h, toBE_length]
+      cases hj1 : j - n with
       | zero => simp [readN]
       | succ m =>
         have h2 : readN 1 (ty :: b.take m) = .ok ([ty], b.take m) := readN_append' 1 [ty] _ rfl
@@ -473,10 +474,13 @@ theorem rt_step (f : Nat) (ih : ∀ y, valid y = true → (encode y).length < f 
       rw [readU_toBE 4 kvs.length _ (by rw [pow4]; exact hlen)]
       exact mapFn_ok (decT f) kvs rest helem
 
-  | ext8 ty b =>
-    simp only [valid, decide_eq_true_eq] at hv
-    simp only [encode, value, List.cons_append, List.append_assoc]
-    exact ext8_rt f ty b rest hv
+  | ext fm ty b =>
+    simp only [valid] at hv
+    simp only [encode, value, List.append_assoc]
+    cases fm <;> simp [lenOk] at hv <;> simp only [encLen, List.cons_append, List.nil_append]
+    · exact ext_rt f 0xc7 1 ty b rest (by decide) (by decide) (by rw [pow1]; exact hv)
+    · exact ext_rt f 0xc8 2 ty b rest (by decide) (by decide) (by rw [pow2]; exact hv)
+    · exact ext_rt f 0xc9 4 ty b rest (by decide) (by decide) (by rw [pow4]; exact hv)
   | fixext ty b =>
     simp only [valid, decide_eq_true_eq] at hv
     simp only [encode, value, List.cons_append, List.append_assoc]
@@ -573,9 +577,14 @@ theorem pf_step (f : Nat) (ihrt : ∀ y, valid y = true → (encode y).length < 
           (fun p hp => ⟨fun hle => (hrt p hp).1 (by omega), fun hle => (hrt p hp).2 (by omega)⟩)
           (fun p hp => ⟨fun i hi hij => (hpf p hp).1 i hi (by omega), fun i hi hij => (hpf p hp).2 i hi (by omega)⟩)
           (by simp [toBE_length] at hk; omega)
-  | ext8 ty b =>
-    simp only [valid, decide_eq_true_eq] at hv
-    exact ext8_pf f ty b hv k hk
+  | ext fm ty b =>
+    simp only [valid] at hv
+    revert hk
+    simp only [encode]
+    cases fm <;> simp [lenOk] at hv <;> simp only [encLen, List.cons_append, List.nil_append] <;> intro hk
+    · exact ext_pf f 0xc7 1 ty b (by decide) (by decide) (by rw [pow1]; exact hv) k hk
+    · exact ext_pf f 0xc8 2 ty b (by decide) (by decide) (by rw [pow2]; exact hv) k hk
+    · exact ext_pf f 0xc9 4 ty b (by decide) (by decide) (by rw [pow4]; exact hv) k hk
   | fixext ty b =>
     simp only [valid, decide_eq_true_eq] at hv
     exact fixext_pf f ty b hv k hk
@@ -601,7 +610,7 @@ theorem reprOK_value : ∀ x, valid x = true → reprOK (value x) = true
   | .f64 _, _ => by simp [value, reprOK]
   | .str _ _, _ => by simp [value, reprOK]
   | .bin _ _, _ => by simp [value, reprOK]
-  | .ext8 _ _, _ => by simp [value, reprOK]
+  | .ext _ _ _, _ => by simp [value, reprOK]
   | .fixext _ _, _ => by simp [value, reprOK]
   | .arr _ xs, h => by
     simp only [valid, Bool.and_eq_true] at h
